@@ -199,7 +199,8 @@ readArray:
 				return nil, errors.New("corrupt input: expected float, but no more values")
 			}
 			val := math.Float64frombits(a.tape.Tape[a.off])
-			if val > math.MaxInt64 {
+			// math.MaxInt64 is not representable as float64 and rounds up to 2^63, which overflows.
+			if val >= math.MaxInt64 {
 				return nil, errors.New("float value overflows int64")
 			}
 			if val < math.MinInt64 {
@@ -250,7 +251,8 @@ readArray:
 				return nil, errors.New("corrupt input: expected float, but no more values")
 			}
 			val := math.Float64frombits(a.tape.Tape[a.off])
-			if val > math.MaxInt64 {
+			// math.MaxUint64 is not representable as float64 and rounds up to 2^64, which overflows.
+			if val >= math.MaxUint64 {
 				return nil, errors.New("float value overflows uint64")
 			}
 			if val < 0 {
